@@ -1,12 +1,22 @@
 import Morlock.Model.UciSeq
+import Morlock.Proofs.UciPosRobust
 /-!
 # C10 — the engine game equals the one the last `position` command describes (text-handling lemmas)
 
 The deterministic driver model (`Morlock.Driver.Uci`, tied to the real `uci.Driver` by the `ucidet`
 stream) sets up the game from scratch unless `continuation` recognises the line as an extension of
-the previous one *and* all extra words can be played. Proved here: the recogniser itself.
-The refinement "state = denote(last command)" over command sequences is decided by the stream
-(impl vs model exact; impl vs a game built from the last command alone).
+the previous one *and* all extra words can be played. Its `position` handler *is*
+`Morlock.Model.UciPos.position` on the concrete engine model. Proved here, for every engine
+(`UciPos.Eng E`: `Reset` and `Move` as partial functions):
+
+* the recogniser (`continuation_*`);
+* `fresh_eq_denote`, `fallback_eq_denote`: the new-position path sets up the game the line describes;
+* `extend_eq_scratch`: a line extending the previous one has the effect of setting it up from scratch;
+* `state_eq_last`: after any sequence of `ucinewgame` / well-formed playable `position` commands the
+  engine holds the game of the last `position` command;
+* `robust_state_eq_last`, `malformed_then_wellformed_partial`: the same after *arbitrary* earlier lines,
+  for engines that refuse `startpos` and move numbers as moves (`Eng.Strict`) — and
+  `malformed_then_wellformed_false_*`: without that (or from an unreachable state) it is false.
 -/
 namespace Morlock.Props.C10
 open Morlock.Model Morlock.Model.UciSeq
@@ -41,5 +51,335 @@ theorem continuation_shorten :
     continuation "position startpos moves e2e4 e7e5".toList "position startpos moves e2e4".toList = none := by decide
 
 example : continuation "a b".toList "a b c".toList = some ["c".toList] := by decide
+
+
+/-! ## The handler -/
+
+open Morlock.Model.UciPos Morlock.Proofs.UciPos Morlock.Proofs.UciPosText
+
+variable {E : Type}
+
+theorem playable_iff (eng : Eng E) (line : List Char) : Playable eng line ↔ ∃ d, denote eng line = some d := by
+  unfold Playable; exact Option.isSome_iff_exists
+
+/-- Whenever the handler takes the new-position path for a well-formed playable line — here: the line
+    is not recognised as an extension — the engine ends in the game the line describes and the line is
+    remembered. `e` and `last` are arbitrary. -/
+theorem fresh_eq_denote (eng : Eng E) (e : E) (last line : List Char)
+    (hw : WellFormed line) (hp : Playable eng line) (hc : continuation last line = none) :
+    denote eng line = some (position eng (e, last) line).1 ∧ (position eng (e, last) line).2 = line := by
+  obtain ⟨c, hok, rfl, ht⟩ := hw
+  obtain ⟨d, hd⟩ := (playable_iff eng _).1 hp
+  have hd' := hd
+  rw [denote_render eng c hok] at hd'
+  have : position eng (e, last) c.render = (d, c.render) := by
+    unfold position; simp only [hc]; exact fresh_render eng e d c hok ht hd'
+  rw [this]; exact ⟨hd, rfl⟩
+
+/-- … in particular when there is no previous line (start, `ucinewgame`, or after a rejected line). -/
+theorem fresh_eq_denote_nil (eng : Eng E) (e : E) (line : List Char) (hw : WellFormed line) (hp : Playable eng line) :
+    denote eng line = some (position eng (e, []) line).1 ∧ (position eng (e, []) line).2 = line :=
+  fresh_eq_denote eng e [] line hw hp (continuation_none_of_empty line)
+
+/-- … and when the line is recognised as an extension but the extra words cannot all be played
+    (the engine is then left advanced by some of them, and reset). -/
+theorem fallback_eq_denote (eng : Eng E) (e : E) (last line : List Char) (rest : List (List Char))
+    (hw : WellFormed line) (hp : Playable eng line) (hc : continuation last line = some rest)
+    (hx : (extend eng e rest).2 = false) :
+    denote eng line = some (position eng (e, last) line).1 ∧ (position eng (e, last) line).2 = line := by
+  obtain ⟨c, hok, rfl, ht⟩ := hw
+  obtain ⟨d, hd⟩ := (playable_iff eng _).1 hp
+  have hd' := hd
+  rw [denote_render eng c hok] at hd'
+  have : position eng (e, last) c.render = (d, c.render) := by
+    unfold position; simp only [hc, hx, Bool.false_eq_true, if_false]
+    exact fresh_render eng _ d c hok ht hd'
+  rw [this]; exact ⟨hd, rfl⟩
+
+/-- **A command that extends the previous one has the same effect as setting the whole line up from
+    scratch.** The previous line is well-formed and the engine holds its game (`he`; this includes that
+    it is playable); the new line is well-formed, playable and recognised as an extension. Then — by
+    whichever path — the engine ends in the game of the new line, and the new line is remembered. -/
+theorem extend_eq_scratch (eng : Eng E) (e : E) (last line : List Char) (rest : List (List Char))
+    (hwl : WellFormed last) (he : denote eng last = some e)
+    (hw : WellFormed line) (hp : Playable eng line) (hc : continuation last line = some rest) :
+    denote eng line = some (position eng (e, last) line).1 ∧ (position eng (e, last) line).2 = line := by
+  obtain ⟨c1, hok1, rfl, ht1⟩ := hwl
+  obtain ⟨c2, hok2, rfl, ht2⟩ := hw
+  obtain ⟨d, hd⟩ := (playable_iff eng _).1 hp
+  have hd' := hd
+  rw [denote_render eng c2 hok2] at hd'
+  rw [denote_render eng c1 hok1] at he
+  rw [position_extends eng e d c1 c2 hok1 hok2 ht1 ht2 he hd' rest hc]
+  exact ⟨hd, rfl⟩
+
+/-- Both cases together: no previous line, or the engine holds the game of a well-formed previous line. -/
+theorem position_wf (eng : Eng E) (st : E × List Char) (line : List Char)
+    (hst : st.2 = [] ∨ (WellFormed st.2 ∧ denote eng st.2 = some st.1))
+    (hw : WellFormed line) (hp : Playable eng line) :
+    denote eng line = some (position eng st line).1 ∧ (position eng st line).2 = line := by
+  obtain ⟨e, last⟩ := st
+  rcases hst with h | ⟨hwl, he⟩
+  · simp only at h; subst h; exact fresh_eq_denote_nil eng e line hw hp
+  · cases hc : continuation last line with
+    | none => exact fresh_eq_denote eng e last line hw hp hc
+    | some rest => exact extend_eq_scratch eng e last line rest hwl he hw hp hc
+
+/-- A command the property speaks about: `ucinewgame`, or a well-formed playable `position` line. -/
+def Regular (eng : Eng E) (c : Command) : Prop :=
+  c = .newgame ∨ ∃ l, c = .position l ∧ WellFormed l ∧ Playable eng l
+
+/-- The invariant: `ll` is the line of the last `position` command so far. -/
+def Inv (eng : Eng E) (st : E × List Char) (ll : Option (List Char)) : Prop :=
+  (∀ l, ll = some l → WellFormed l ∧ denote eng l = some st.1) ∧ (st.2 = [] ∨ ll = some st.2)
+
+theorem step_inv (eng : Eng E) (st : E × List Char) (ll : Option (List Char)) (c : Command)
+    (hi : Inv eng st ll) (hc : Regular eng c) : Inv eng (step eng st c) (lastLineFrom ll [c]) := by
+  rcases hc with rfl | ⟨l, rfl, hw, hp⟩
+  · refine ⟨fun l hl => hi.1 l hl, Or.inl rfl⟩
+  · have hst : st.2 = [] ∨ (WellFormed st.2 ∧ denote eng st.2 = some st.1) := by
+      rcases hi.2 with h | h
+      · exact Or.inl h
+      · exact Or.inr (hi.1 _ h)
+    have := position_wf eng st l hst hw hp
+    refine ⟨fun l' hl' => ?_, Or.inr ?_⟩
+    · have : l = l' := by simpa [lastLineFrom] using hl'
+      subst this
+      exact ⟨hw, by simpa [step] using this.1⟩
+    · simp [lastLineFrom, step, this.2]
+
+theorem run_inv (eng : Eng E) (st : E × List Char) (ll : Option (List Char)) (cmds : List Command)
+    (hi : Inv eng st ll) (hc : ∀ c ∈ cmds, Regular eng c) : Inv eng (run eng st cmds) (lastLineFrom ll cmds) := by
+  induction cmds generalizing st ll with
+  | nil => exact hi
+  | cons c cs ih =>
+    have h1 := step_inv eng st ll c hi (hc c (by simp))
+    exact ih (step eng st c) (lastLineFrom ll [c]) h1 (fun c' hc' => hc c' (by simp [hc']))
+
+/-- **C10.** After any sequence of `ucinewgame` and well-formed playable `position` commands — fresh,
+    extended, repeated verbatim, shortened, other position — starting with no remembered line and any
+    engine state, the engine holds exactly the game the last `position` command describes; and the
+    remembered line is empty or that last line. -/
+theorem state_eq_last (eng : Eng E) (e0 : E) (cmds : List Command) (hc : ∀ c ∈ cmds, Regular eng c) :
+    (∀ l, lastLine cmds = some l → denote eng l = some (run eng (e0, []) cmds).1) ∧
+    ((run eng (e0, []) cmds).2 = [] ∨
+      (lastLine cmds = some (run eng (e0, []) cmds).2 ∧
+        denote eng (run eng (e0, []) cmds).2 = some (run eng (e0, []) cmds).1)) := by
+  have h := run_inv eng (e0, []) none cmds ⟨fun l hl => by simp at hl, Or.inl rfl⟩ hc
+  refine ⟨fun l hl => (h.1 l hl).2, ?_⟩
+  rcases h.2 with h2 | h2
+  · exact Or.inl h2
+  · exact Or.inr ⟨h2, (h.1 _ h2).2⟩
+
+/-! ## Arbitrary earlier lines -/
+
+/-- Every state reachable from "no remembered line" by *arbitrary* commands (malformed, unplayable,
+    garbage `position` lines included) handles a following well-formed playable line right — for a
+    strict engine. -/
+theorem robust_state_eq_last (eng : Eng E) (hS : eng.Strict) (e0 : E) (pre : List Command) (line : List Char)
+    (hw : WellFormed line) (hp : Playable eng line) :
+    denote eng line = some (run eng (e0, []) (pre ++ [.position line])).1 ∧
+    (run eng (e0, []) (pre ++ [.position line])).2 = line := by
+  obtain ⟨c, hok, rfl, ht⟩ := hw
+  obtain ⟨d, hd⟩ := (playable_iff eng _).1 hp
+  have hd' := hd
+  rw [denote_render eng c hok] at hd'
+  have hg := run_good eng hS (e0, []) (good_nil eng e0) pre
+  have : run eng (e0, []) (pre ++ [.position c.render]) = (d, c.render) := by
+    simp only [run, List.foldl_append, List.foldl_cons, List.foldl_nil, step]
+    exact position_of_good eng _ hg c d hok ht hd'
+  rw [this]; exact ⟨hd, rfl⟩
+
+/-- After ANY line at all, a following well-formed playable line still ends in the game it describes.
+    `_partial`: proved for a strict engine and an intermediate state reachable from "no remembered
+    line" (by arbitrary commands) — not for an arbitrary `(e, last)`, and not for every engine: both
+    restrictions are needed, see `malformed_then_wellformed_false_unrelated` / `_false_reachable`. -/
+theorem malformed_then_wellformed_partial (eng : Eng E) (hS : eng.Strict) (e0 : E) (pre : List Command)
+    (garbage line : List Char) (hw : WellFormed line) (hp : Playable eng line) :
+    denote eng line = some (position eng (position eng (run eng (e0, []) pre) garbage) line).1 ∧
+    (position eng (position eng (run eng (e0, []) pre) garbage) line).2 = line := by
+  have := robust_state_eq_last eng hS e0 (pre ++ [.position garbage]) line hw hp
+  simpa [run, List.foldl_append, step] using this
+
+/-! ## A checker for well-formedness, tiny engines, instances and counterexamples -/
+
+def wordB (w : List Char) : Bool := w ≠ [] && !w.contains ' ' && w ≠ kwMoves
+
+def okB (c : Cmd) : Bool :=
+  (match c.fen with
+   | none => true
+   | some fs => fs.length == 6 && fs.all wordB) && c.moves.all wordB
+
+theorem wordB_spec (w : List Char) (h : wordB w = true) : Word w ∧ w ≠ kwMoves := by
+  simp [wordB] at h
+  exact ⟨⟨h.1.1, h.1.2⟩, h.2⟩
+
+theorem ok_of_okB (c : Cmd) (h : okB c = true) : c.Ok := by
+  unfold okB at h
+  rw [Bool.and_eq_true] at h
+  refine ⟨fun fs hf => ?_, fun m hm => wordB_spec m (List.all_eq_true.1 h.2 m hm)⟩
+  have h1 := h.1
+  rw [hf] at h1
+  simp only [Bool.and_eq_true, beq_iff_eq] at h1
+  exact ⟨h1.1, fun f hf' => wordB_spec f (List.all_eq_true.1 h1.2 f hf')⟩
+
+/-- Well-formedness by evaluation. -/
+theorem wellFormed_of_check (line : List Char) (c : Cmd) (h : okB c = true) (hr : line = c.render)
+    (ht : Fen.trimSpace line = line) : WellFormed line := ⟨c, ok_of_okB c h, hr, ht⟩
+
+/-- "No leading or trailing blanks" holds as soon as the last word of the line ends in a non-blank
+    (the line starts with `p`). -/
+theorem wellFormed_render (c : Cmd) (hok : c.Ok)
+    (hb : ∀ w ∈ c.words, ∀ ch ∈ w, Fen.isSpace ch = false) : WellFormed c.render := by
+  refine ⟨c, hok, rfl, ?_⟩
+  have hwords : c.words = kwPosition :: (c.header ++ c.tail) := rfl
+  rcases List.eq_nil_or_concat (c.header ++ c.tail) with h | ⟨ini, w, h⟩
+  · exact absurd (List.append_eq_nil_iff.1 h).1 (header_ne_nil c)
+  · rw [List.concat_eq_append] at h
+    have hw : c.words = (kwPosition :: ini) ++ [w] := by rw [hwords, h]; rfl
+    have hwm : w ∈ c.words := by rw [hw]; simp
+    have hwne : w ≠ [] := words_ne_nil_each c hok w hwm
+    have hr : c.render = joinSp (kwPosition :: ini) ++ ' ' :: w := by
+      unfold Cmd.render; rw [hw, joinSp_concat _ _ (by simp)]
+    have hhead : ∃ t, c.render = 'p' :: t := by
+      unfold Cmd.render; rw [hwords]
+      cases hx : c.header ++ c.tail with
+      | nil => rw [hx] at h; simp at h
+      | cons x xs => exact ⟨_, rfl⟩
+    obtain ⟨t, ht⟩ := hhead
+    unfold Fen.trimSpace
+    have h1 : c.render.dropWhile Fen.isSpace = c.render := by
+      rw [ht, List.dropWhile_cons]; simp [show Fen.isSpace 'p' = false by decide]
+    rw [h1]
+    cases hrev : w.reverse with
+    | nil => simp at hrev; exact absurd hrev hwne
+    | cons l r =>
+      have hl : Fen.isSpace l = false :=
+        hb w hwm l (List.mem_reverse.1 (by rw [hrev]; simp))
+      have h2 : c.render.reverse = l :: (r ++ (joinSp (kwPosition :: ini) ++ [' ']).reverse) := by
+        rw [hr]; simp [hrev]
+      rw [h2, List.dropWhile_cons]
+      simp only [hl, Bool.false_eq_true, if_false]
+      rw [← h2, List.reverse_reverse]
+
+/-- A tiny engine: the state is the position text and the list of moves played; `Reset` accepts every
+    text, `Move` every non-empty word. (Not `Strict`.) -/
+def tiny : Eng (List Char × List (List Char)) where
+  reset f := some (f, [])
+  move s w := if w = [] then none else some (s.1, s.2 ++ [w])
+
+/-- A tiny strict engine: `Reset` accepts only the initial position, moves are four-letter words. -/
+def tinyStrict : Eng (List (List Char)) where
+  reset f := if f = initialFen then some [] else none
+  move s w := if w.length = 4 then some (s ++ [w]) else none
+
+theorem tinyStrict_strict : tinyStrict.Strict := by
+  refine ⟨fun e => by simp [tinyStrict, kwStartpos], fun fs f hl hr e => ?_⟩
+  have hne : fs ≠ [] := by intro h; subst h; simp at hl
+  simp only [tinyStrict] at hr ⊢
+  split at hr
+  · rename_i h
+    rw [joinSp_concat fs f hne] at h
+    have h1 : (joinSp fs).length + (1 + f.length) = 56 := by
+      have hl56 : initialFen.length = 56 := by decide
+      have := congrArg List.length h
+      simp only [List.length_append, List.length_cons] at this
+      omega
+    have h2 : initialFen[(joinSp fs).length]? = some ' ' := by rw [← h]; simp
+    by_cases h4 : f.length = 4
+    · have : (joinSp fs).length = 51 := by omega
+      rw [this] at h2
+      exact absurd h2 (by decide)
+    · simp [h4]
+  · simp at hr
+
+private def l0 := "position startpos".toList
+private def l1 := "position startpos moves e2e4".toList
+private def l2 := "position startpos moves e2e4 e7e5".toList
+private def l3 := "position fen 4k3/8/8/8/8/8/4P3/4K3 w - - 0 1 moves e2e4".toList
+
+theorem wf_l0 : WellFormed l0 := wellFormed_of_check l0 ⟨none, []⟩ (by decide) (by decide) (by decide)
+theorem wf_l1 : WellFormed l1 := wellFormed_of_check l1 ⟨none, ["e2e4".toList]⟩ (by decide) (by decide) (by decide)
+theorem wf_l2 : WellFormed l2 :=
+  wellFormed_of_check l2 ⟨none, ["e2e4".toList, "e7e5".toList]⟩ (by decide) (by decide) (by decide)
+theorem wf_l3 : WellFormed l3 :=
+  wellFormed_of_check l3 ⟨some ["4k3/8/8/8/8/8/4P3/4K3".toList, ['w'], ['-'], ['-'], ['0'], ['1']], ["e2e4".toList]⟩
+    (by decide) (by decide) (by decide)
+
+/-- The meaning of the sample lines on the tiny engine. -/
+example : denote tiny l2 = some (initialFen, ["e2e4".toList, "e7e5".toList]) := by decide
+example : denote tiny l3 = some ("4k3/8/8/8/8/8/4P3/4K3 w - - 0 1".toList, ["e2e4".toList]) := by decide
+
+/-- The handler evaluated: set up, extend (twice), repeat verbatim, shorten, other position, new game. -/
+example :
+    run tiny (([], []), []) [.position l0, .position l1, .position l2] = ((initialFen, ["e2e4".toList, "e7e5".toList]), l2) ∧
+    run tiny (([], []), []) [.position l2, .position l2] = ((initialFen, ["e2e4".toList, "e7e5".toList]), l2) ∧
+    run tiny (([], []), []) [.position l2, .position l1] = ((initialFen, ["e2e4".toList]), l1) ∧
+    run tiny (([], []), []) [.position l2, .position l3] = (("4k3/8/8/8/8/8/4P3/4K3 w - - 0 1".toList, ["e2e4".toList]), l3) ∧
+    run tiny (([], []), []) [.position l1, .newgame, .position l2] = ((initialFen, ["e2e4".toList, "e7e5".toList]), l2) := by
+  decide
+
+/-- `state_eq_last` instantiated (the hypotheses discharged by evaluation). -/
+example : denote tiny l2 = some (run tiny (([], []), []) [.position l0, .newgame, .position l1, .position l2]).1 := by
+  have hreg : ∀ c ∈ [Command.position l0, .newgame, .position l1, .position l2], Regular tiny c := by
+    intro c hc
+    simp only [List.mem_cons, List.not_mem_nil, or_false] at hc
+    rcases hc with rfl | rfl | rfl | rfl
+    · exact Or.inr ⟨l0, rfl, wf_l0, by decide⟩
+    · exact Or.inl rfl
+    · exact Or.inr ⟨l1, rfl, wf_l1, by decide⟩
+    · exact Or.inr ⟨l2, rfl, wf_l2, by decide⟩
+  exact (state_eq_last tiny ([], []) _ hreg).1 l2 (by decide)
+
+/-- The engine is left advanced when the extension fails, then reset: `e2e4 e7e5` is remembered,
+    the new line adds a word the strict engine refuses, the line is rejected as a whole and the
+    engine is left where the from-scratch attempt stopped. -/
+example : position tinyStrict (["e2e4".toList, "e7e5".toList], l2) "position startpos moves e2e4 e7e5 xx".toList
+    = (["e2e4".toList, "e7e5".toList], []) := by decide
+
+/-- `malformed_then_wellformed` is false for an arbitrary `(e, last)`: if the engine does not hold the
+    game of the remembered line, a successful extension inherits the difference. -/
+theorem malformed_then_wellformed_false_unrelated :
+    position tiny ((initialFen, ["d2d4".toList]), l0) l1 = ((initialFen, ["d2d4".toList, "e2e4".toList]), l1) ∧
+    denote tiny l1 = some (initialFen, ["e2e4".toList]) := by decide
+
+/-- `malformed_then_wellformed` is false for a *reachable* state if the engine is not strict: the
+    malformed line `position fen a b c d e` (five fields) is accepted as the start position and
+    remembered; the well-formed line `position fen a b c d e f moves e2e4` extends it, and an engine
+    that accepts the sixth field `f` as a move ends with the moves `f e2e4` played from the start
+    position instead of `e2e4` from `a b c d e f`. (Likewise `position` followed by
+    `position startpos moves …` if `startpos` is accepted as a move.) The real engine refuses such
+    words (`board.ParseMove`), so there the fallback is taken: see `robust_state_eq_last`. -/
+theorem malformed_then_wellformed_false_reachable :
+    run tiny (([], []), []) [.position "position fen a b c d e".toList, .position "position fen a b c d e f moves e2e4".toList]
+      = ((initialFen, [['f'], "e2e4".toList]), "position fen a b c d e f moves e2e4".toList) ∧
+    denote tiny "position fen a b c d e f moves e2e4".toList = some ("a b c d e f".toList, ["e2e4".toList]) ∧
+    run tiny (([], []), []) [.position "position".toList, .position l1]
+      = ((initialFen, [kwStartpos, "e2e4".toList]), l1) := by decide
+
+/-- `robust_state_eq_last` instantiated: garbage, an accepted malformed line and a half-accepted line
+    first, then a well-formed playable line. -/
+example : denote tinyStrict l2 = some (run tinyStrict ([], [])
+    [.position "position fen a b c".toList, .position "position".toList, .position "hello world".toList,
+     .position "position startpos moves e2e4 e7e5 toolong".toList, .position l2]).1 :=
+  (robust_state_eq_last tinyStrict tinyStrict_strict []
+    [.position "position fen a b c".toList, .position "position".toList, .position "hello world".toList,
+     .position "position startpos moves e2e4 e7e5 toolong".toList] l2 wf_l2 (by decide)).1
+
+/-- Why `Cmd.Ok` also asks the FEN fields not to be the word `moves`: the new-position path starts
+    the move list at the first `moves`, also inside the position text. (No position text the real
+    `fen.Decode` accepts has such a field.) -/
+theorem fen_field_moves_differs :
+    position tiny (([], []), []) "position fen moves b c d e f".toList
+      = (("moves b c d e f".toList, [['b'], ['c'], ['d'], ['e'], ['f']]), "position fen moves b c d e f".toList) ∧
+    denote tiny "position fen moves b c d e f".toList = some ("moves b c d e f".toList, []) := by decide
+
+/-- Not covered by the theorems (the line is not well-formed): with two spaces between moves the
+    extension path (`strings.Fields`) accepts the line, the new-position path (`strings.Split`) sees an
+    empty move and rejects it — extending and setting up from scratch differ on such lines. -/
+theorem double_space_paths_differ :
+    position tinyStrict (["e2e4".toList], l1) "position startpos moves e2e4  e7e5".toList
+      = (["e2e4".toList, "e7e5".toList], "position startpos moves e2e4  e7e5".toList) ∧
+    position tinyStrict ([], []) "position startpos moves e2e4  e7e5".toList = (["e2e4".toList], []) := by decide
 
 end Morlock.Props.C10
